@@ -275,3 +275,174 @@ def first_of(N, forward, neg):
         pred = '(%dul < SLEN && %sIN_SET(CH(%dul)))' % (p, '!' if neg else '', p)
         e = '((%s && %s) ? %dul : %s)' % (cond, pred, p, e)
     return e
+
+
+# ---------------------------------------------------------------------------------------------------------------------------
+# Second family (added later): the overloads that forward to the counted kernels - sources given as another fixed string, as a
+# std::basic_string (model: {data, size} with data[size] == 0), as an iterator range, and positions given as iterators.
+# Every mutator is one "splice":   chr' = chr[0, P) ++ SRC[0, M) ++ chr[P + C, len)     (std::basic_string::replace semantics;
+# assign: P = 0, C = len; append: P = len, C = 0; insert: C = 0; erase: M = 0).  {L} is the string's own length BEFORE the call.
+def generate_more(N, layout):
+    if layout == 'strlen':
+        return ''          # the strlen-sized layout needs non-NUL sources (stated per overload in generate()); not generated here
+    o = []
+    A = o.append
+
+    def pre(e):
+        return e.replace('{L}', 'LEN(self)')
+
+    def post(e):
+        return e.replace('{L}', 'OLDLEN(self)')
+
+    def MIN(a, b):
+        return '((%s) < (%s) ? (%s) : (%s))' % (a, b, a, b)
+
+    A('/* clauses about VALUES that C02 (bounds, exceptions, unchanged-on-throw) does not speak about */')
+    A('#ifdef XV_PROP_C02\n#define XV_C01_ONLY(x)\n#else\n#define XV_C01_ONLY(x) x\n#endif')
+    A('#define XSTR(p) (__CPROVER_is_fresh(p, sizeof(*(p))) && (p)->size <= 4 * FS_N && __CPROVER_is_fresh((p)->data, (p)->size + 1) && (p)->data[(p)->size] == 0)')
+    A('#define FSTR(p) (OBJ(p) && WF(p))')
+    A('#define AT(k) (&BUF(self)[0] + (k))')
+
+    class Src:
+        """source range SRC[0, M): base pointer, total length, offset into it, requested count (None = the rest)"""
+        def __init__(self, req, base, total, off=None, cnt=None, fill=None):
+            self.req, self.base, self.total, self.off, self.cnt, self.fill = req, base, total, off, cnt, fill
+
+        def M(self):
+            if self.fill is not None:
+                return self.cnt
+            rest = '(%s - %s)' % (self.total, self.off) if self.off else self.total
+            return MIN(self.cnt, rest) if self.cnt else rest
+
+        def ch(self, k):
+            if self.fill is not None:
+                return 'UC(%s)' % self.fill
+            return 'UC((%s)[%s(%s)])' % (self.base, ('%s + ' % self.off) if self.off else '', k)
+
+        def rerr(self):
+            return '(%s > %s)' % (self.off, self.total) if self.off else None
+
+    def xs(p, off=None, cnt=None):
+        return Src('XSTR(%s)' % p, '(%s)->data' % p, '(%s)->size' % p, off, cnt)
+
+    def fs(p, off=None, cnt=None):
+        return Src('FSTR(%s)' % p, 'BUF(%s)' % p, 'LEN(%s)' % p, off, cnt)
+
+    def rng(first, last):
+        return Src('(xv_n <= 4 * FS_N && __CPROVER_is_fresh(%s, xv_n) && %s == %s + xv_n)' % (first, last, first), first, 'xv_n')
+
+    def fill(cnt, c):
+        return Src('(%s <= 4 * FS_N)' % cnt, None, None, None, cnt, c)
+
+    def splice(name, P, Cn, src, own_rerr=None, extra_req=(), ret='RV == self', lenerr=True, noexc=False):
+        M = src.M() if src else '0ul'
+        rerrs = [r for r in ((src.rerr() if src else None), own_rerr) if r]
+        RERR = ' || '.join(rerrs) if rerrs else '0'
+        cl = ['ENTRY' + (' __CPROVER_requires(%s)' % src.req if src else '')]
+        for r in extra_req:
+            cl.append('__CPROVER_requires(%s)' % r)
+        if src:
+            cl.append('__CPROVER_requires((!(%s) && xv_g >= %s && xv_g - %s < %s) ==> xv_a1 == %s)' % (pre(RERR), pre(P), pre(P), pre(M), src.ch('xv_g - %s' % pre(P))))
+        cl.append('__CPROVER_requires((!(%s) && xv_g + %s >= %s && xv_g + %s - %s <= FS_N) ==> xv_a2 == UC(BUF(self)[xv_g + %s - %s]))' % (pre(RERR), pre(Cn), pre(M), pre(Cn), pre(M), pre(Cn), pre(M)))
+        NEWLEN = '(OLDLEN(self) - %s + %s)' % (post(Cn), post(M))
+        if noexc:
+            cl.append('__CPROVER_requires({L} - %s + %s <= FS_N)'.replace('{L}', 'LEN(self)') % (pre(Cn), pre(M)))
+            cl.append('__CPROVER_ensures(xv_exc == 0 && WF(self))')
+        else:
+            cl.append('__CPROVER_ensures((xv_exc == RANGEERR) == (%s))' % post(RERR))
+            if lenerr:
+                cl.append('__CPROVER_ensures((xv_exc == LENERR) == (!(%s) && %s > FS_N)) ON_THROW' % (post(RERR), NEWLEN))
+            else:
+                cl.append('__CPROVER_ensures(xv_exc == 0 || xv_exc == RANGEERR) ON_THROW')
+        cl.append('__CPROVER_ensures(xv_exc == 0 ==> (LEN(self) == %s && %s))' % (NEWLEN, post(ret)))
+        cl.append('__CPROVER_ensures((xv_exc == 0 && xv_g < LEN(self)) ==> UC(BUF(self)[xv_g]) == (xv_g < %s ? UC(OLDCH(self)) : xv_g < %s + %s ? xv_a1 : xv_a2))' % (post(P), post(P), post(M)))
+        cl.append('FRAME')
+        A('#define XV_CONTRACT_%s \\\n  %s' % (name, ' \\\n  '.join(cl)))
+
+    # ---- assign
+    splice('fs__assign__rxv_str_ul_ul', '0ul', '{L}', xs('other', 'pos', 'count'))
+    splice('fs__assign__rfs_ul_ul', '0ul', '{L}', fs('other', 'pos', 'count'))
+    splice('fs__assign__rfs', '0ul', '{L}', fs('rhs'))
+    splice('fs__assign__Rfs', '0ul', '{L}', fs('rhs'))
+    splice('fs__assign__T_pc__pc_pc', '0ul', '{L}', rng('first', 'last'))
+    # ---- insert by index
+    splice('fs__insert__ul_rxv_str', 'index', '0ul', xs('str'), own_rerr='(index > {L})')
+    splice('fs__insert__ul_rxv_str_ul_ul', 'index', '0ul', xs('str', 'index_str', 'count'), own_rerr='(index > {L})')
+    splice('fs__insert__ul_rfs', 'index', '0ul', fs('str'), own_rerr='(index > {L})')
+    splice('fs__insert__ul_rfs_ul_ul', 'index', '0ul', fs('str', 'index_str', 'count'), own_rerr='(index > {L})')
+    # ---- insert / erase by iterator: pos designates index xv_a3 in [0, size()] - INCLUDING end() (std::basic_string inserts there);
+    #      the result is the iterator to the first inserted character (resp. to the character following the erased ones)
+    # (pointer_in_range_dfcc is the form of pointer equality that keeps the points-to information when assumed)
+    IT = lambda p, g, hi: '%s <= %s && %s <= FS_N && __CPROVER_pointer_in_range_dfcc(AT(%s), %s, AT(%s))' % (g, hi, g, g, p, g)
+    splice('fs__insert__pc_ul_c', 'xv_a3', '0ul', fill('count', 'ch'), extra_req=[IT('pos', 'xv_a3', 'LEN(self)')], ret='RV == AT(xv_a3)')
+    splice('fs__insert__pc_c', 'xv_a3', '0ul', fill('1ul', 'ch'), extra_req=[IT('pos', 'xv_a3', 'LEN(self)')], ret='RV == AT(xv_a3)')
+    splice('fs__insert__T_pc__pc_pc_pc', 'xv_a3', '0ul', rng('first', 'last'), extra_req=[IT('pos', 'xv_a3', 'LEN(self)')], ret='RV == AT(xv_a3)')
+    splice('fs__erase__pc', 'xv_a3', '1ul', None, extra_req=[IT('position', 'xv_a3', 'LEN(self)'), 'xv_a3 < LEN(self)'], ret='RV == AT(xv_a3)', noexc=True)
+    splice('fs__erase__pc_pc', 'xv_a3', '(xv_a4 - xv_a3)', None, extra_req=[IT('first', 'xv_a3', 'xv_a4'), IT('last', 'xv_a4', 'LEN(self)')], ret='RV == AT(xv_a3)', noexc=True)
+    # ---- append
+    splice('fs__append__rxv_str', '{L}', '0ul', xs('str'))
+    splice('fs__append__rxv_str_ul_ul', '{L}', '0ul', xs('str', 'pos', 'count'))
+    splice('fs__append__rfs', '{L}', '0ul', fs('str'))
+    splice('fs__append__rfs_ul_ul', '{L}', '0ul', fs('str', 'pos', 'count'))
+    splice('fs__append__T_pc__pc_pc', '{L}', '0ul', rng('first', 'last'))
+    splice('fs__op_add_assign__rxv_str', '{L}', '0ul', xs('str'))
+    splice('fs__op_add_assign__rfs', '{L}', '0ul', fs('str'))
+    splice('fs__op_add_assign__c', '{L}', '0ul', fill('1ul', 'ch'))
+    # ---- replace by position
+    RC = lambda p, c: MIN(c, '({L} - %s)' % p)
+    splice('fs__replace__ul_ul_rxv_str', 'pos', RC('pos', 'count'), xs('str'), own_rerr='(pos > {L})')
+    splice('fs__replace__ul_ul_rfs', 'pos', RC('pos', 'count'), fs('str'), own_rerr='(pos > {L})')
+    splice('fs__replace__ul_ul_rxv_str_ul_ul', 'pos1', RC('pos1', 'count1'), xs('str', 'pos2', 'count2'), own_rerr='(pos1 > {L})')
+    splice('fs__replace__ul_ul_rfs_ul_ul', 'pos1', RC('pos1', 'count1'), fs('str', 'pos2', 'count2'), own_rerr='(pos1 > {L})')
+    splice('fs__replace__ul_ul_ul_c', 'pos', RC('pos', 'count'), fill('count2', 'ch'), own_rerr='(pos > {L})')
+    # ---- replace by iterator range [first, last) = [xv_a3, xv_a4), possibly empty, possibly at end()
+    ITR = [IT('first', 'xv_a3', 'xv_a4'), IT('last', 'xv_a4', 'LEN(self)')]
+    splice('fs__replace__pc_pc_rxv_str', 'xv_a3', '(xv_a4 - xv_a3)', xs('str'), extra_req=ITR)
+    splice('fs__replace__pc_pc_rfs', 'xv_a3', '(xv_a4 - xv_a3)', fs('str'), extra_req=ITR)
+    splice('fs__replace__pc_pc_pc_ul', 'xv_a3', '(xv_a4 - xv_a3)', Src('(count2 <= 4 * FS_N && __CPROVER_is_fresh(cstr, count2))', 'cstr', 'count2'), extra_req=ITR)
+    splice('fs__replace__pc_pc_ul_c', 'xv_a3', '(xv_a4 - xv_a3)', fill('count2', 'ch'), extra_req=ITR)
+    splice('fs__replace__T_pc__pc_pc_pc_pc', 'xv_a3', '(xv_a4 - xv_a3)', rng('first2', 'last2'), extra_req=ITR)
+    # ---- resize(count): new characters are CharT()
+    A('#define XV_CONTRACT_fs__resize__ul ENTRY __CPROVER_ensures((xv_exc == LENERR) == (count > FS_N)) __CPROVER_ensures(xv_exc == 0 || xv_exc == LENERR) ON_THROW \\\n'
+      '  __CPROVER_ensures(xv_exc == 0 ==> LEN(self) == count) \\\n'
+      '  __CPROVER_ensures((xv_exc == 0 && xv_g < count && xv_g < OLDLEN(self)) ==> BUF(self)[xv_g] == OLDCH(self)) \\\n'
+      '  /* the clause below is a recorded finding (known_findings.txt): resize(count) pads with a blank, std::basic_string with CharT() */ \\\n'
+      '  XV_C01_ONLY(__CPROVER_ensures((xv_exc == 0 && xv_g < count && xv_g >= OLDLEN(self)) ==> BUF(self)[xv_g] == 0)) FRAME')
+    # ---- substr(pos, count): a new string holding chr[pos, pos + min(count, len - pos)); the source is unchanged
+    A('#define XV_CONTRACT_fs__substr__ul_ul_c __CPROVER_requires(VALID(self) && xv_exc == 0) GIDX \\\n'
+      '  __CPROVER_requires((pos <= LEN(self) && xv_g + pos <= FS_N) ==> xv_a1 == UC(BUF(self)[xv_g + pos])) \\\n'
+      '  __CPROVER_ensures((xv_exc == RANGEERR) == (pos > LEN(self))) __CPROVER_ensures(xv_exc == 0 || xv_exc == RANGEERR) \\\n'
+      '  __CPROVER_ensures(xv_exc == 0 ==> (WF(&RV) && LEN(&RV) == %s)) \\\n'
+      '  __CPROVER_ensures((xv_exc == 0 && xv_g < LEN(&RV)) ==> UC(BUF(&RV)[xv_g]) == xv_a1) \\\n'
+      '  __CPROVER_assigns(xv_exc)' % MIN('count', '(LEN(self) - pos)'))
+    # ---- swap: lengths and characters exchanged
+    A('#define XV_CONTRACT_fs__swap__rfs ENTRY __CPROVER_requires(FSTR(rhs)) \\\n'
+      '  __CPROVER_ensures(xv_exc == 0 && WF(self) && WF(rhs) && LEN(self) == OLDLEN(rhs) && LEN(rhs) == OLDLEN(self)) \\\n'
+      '  __CPROVER_ensures(xv_g < LEN(self) ==> BUF(self)[xv_g] == OLDCH(rhs)) __CPROVER_ensures(xv_g < LEN(rhs) ==> BUF(rhs)[xv_g] == OLDCH(self)) \\\n'
+      '  __CPROVER_assigns(xv_exc, *self, *rhs)')
+
+    # ---- compare: sign of comparing chr[pos1, pos1 + c1) with SRC (witness xv_m = first differing index, xv_k a ghost index below it)
+    def compare(name, src, pos1=None, count1=None):
+        c1 = MIN(count1, '(LEN(self) - %s)' % pos1) if pos1 else 'LEN(self)'
+        p1 = pos1 or '0ul'
+        c2 = src.M()
+        rerrs = [r for r in (('(%s > LEN(self))' % pos1) if pos1 else None, src.rerr()) if r]
+        RERR = ' || '.join(rerrs) if rerrs else '0'
+        cmin = MIN(c1, c2)
+        b2 = lambda k: '(%s)[%s(%s)]' % (src.base, ('%s + ' % src.off) if src.off else '', k)
+        cl = ['__CPROVER_requires(VALID(self) && %s && xv_exc == 0 && xv_k <= 4 * FS_N)' % src.req,
+              '__CPROVER_ensures((xv_exc == RANGEERR) == (%s)) __CPROVER_ensures(xv_exc == 0 || xv_exc == RANGEERR)' % RERR,
+              '__CPROVER_ensures(xv_exc == 0 ==> xv_m <= %s)' % cmin,
+              '__CPROVER_ensures((xv_exc == 0 && xv_k < xv_m) ==> BUF(self)[%s + xv_k] == %s)' % (p1, b2('xv_k')),
+              '__CPROVER_ensures((xv_exc == 0 && xv_m < %s) ==> (RV != 0 && (RV < 0) == (UC(BUF(self)[%s + xv_m]) < UC(%s))))' % (cmin, p1, b2('xv_m')),
+              '__CPROVER_ensures((xv_exc == 0 && xv_m == %s) ==> ((RV < 0) == (%s < %s) && (RV > 0) == (%s > %s)))' % (cmin, c1, c2, c1, c2),
+              '__CPROVER_assigns(xv_exc, xv_m)']
+        A('#define XV_CONTRACT_%s \\\n  %s' % (name, ' \\\n  '.join(cl)))
+    CS = Src('(count2 <= 4 * FS_N && __CPROVER_is_fresh(s, count2))', 's', 'count2')
+    compare('fs__compare__rxv_str_c', xs('str'))
+    compare('fs__compare__rfs_c', fs('str'))
+    compare('fs__compare__ul_ul_rxv_str_c', xs('str'), 'pos1', 'count1')
+    compare('fs__compare__ul_ul_rfs_c', fs('str'), 'pos1', 'count1')
+    compare('fs__compare__ul_ul_rxv_str_ul_ul_c', xs('str', 'pos2', 'count2'), 'pos1', 'count1')
+    compare('fs__compare__ul_ul_pc_ul_c', CS, 'pos1', 'count1')
+    return '\n'.join(o) + '\n'
